@@ -41,7 +41,7 @@ NoCtx == [active |-> FALSE, sid |-> 0, key |-> "", parent |-> AbsentObj, sel |->
           prevQuiet |-> FALSE, hookOK |-> FALSE, nonBenign |-> FALSE, hook429 |-> FALSE, childFault |-> FALSE,
           statusConflict |-> FALSE, parentGone |-> FALSE, claimFail |-> FALSE, revWrites |-> 0,
           hookReq |-> [children |-> <<>>], result |-> "", parentChanged |-> FALSE, parentReqsAfterHook |-> 0,
-          store0 |-> <<>>, hookSeq |-> <<>>]
+          store0 |-> <<>>, hookSeq |-> <<>>, okEtags |-> {}]
 
 E      == Trace[l]
 HasE   == l <= N
@@ -797,8 +797,14 @@ CtxAfterReq(c, e) ==
         !.wrote = @ \/ (e.verb # "get" /\ e.post # e.pre),
         !.failedReqs = IF ~Accepted(e) THEN Append(@, <<e.verb, e.kind, e.name, e.code>>) ELSE @ ]
 
+\* with ETag support on, "not modified" (304 / 412) in answer to an If-None-Match whose ETag came with an ACCEPTED answer is a
+\* success served from the cache; in every other case anything but 200 is a failed call
+EtagOn == "etag" \in DOMAIN cfg /\ cfg.etag
+NotModifiedOK(c, e) == /\ EtagOn /\ e.code \in {304, 412} /\ "inm" \in DOMAIN e /\ e.inm # "" /\ e.inm \in c.okEtags
+HookFailed(c, e) == e.code # 200 /\ ~NotModifiedOK(c, e)
 CtxAfterHook(c, e) ==
-  IF e.hook = "customize" THEN [c EXCEPT !.hookFail = @ \/ e.code # 200]
+  IF e.hook = "customize" THEN [c EXCEPT !.hookFail = @ \/ HookFailed(c, e),
+                                         !.okEtags = IF e.code = 200 /\ "etag" \in DOMAIN e /\ e.etag # "" THEN @ \cup {e.etag} ELSE @]
   ELSE [c EXCEPT !.nHooks = @ + 1,
                  !.hookSeq = Append(@, [parent |-> e.req.parent, resp |-> e.resp, code |-> e.code]),
                  !.resp = IF e.code = 200 THEN e.resp ELSE @,
@@ -807,7 +813,8 @@ CtxAfterHook(c, e) ==
                  !.finalizing = e.req.finalizing,
                  !.hookCode = e.code,
                  !.hookOK = (e.code = 200 /\ e.resp.wellFormed),
-                 !.hookFail = @ \/ (e.code # 200),
+                 !.hookFail = @ \/ HookFailed(c, e),
+                 !.okEtags = IF e.code = 200 /\ "etag" \in DOMAIN e /\ e.etag # "" THEN @ \cup {e.etag} ELSE @,
                  !.hook429 = @ \/ (e.code = 429),
                  !.allFinalized = @ /\ e.code = 200 /\ e.resp.finalized,
                  !.gateBad = @ \/ (e.code = 200 /\ RespBad(c, e.resp))]
@@ -825,6 +832,7 @@ NewCtx(e) ==
                 !.store0 = store,
                 !.fresh = CacheFresh(e),
                 !.atFix = IF HasExpect("fix") THEN AtFix(store) ELSE FALSE,
+                !.okEtags = IF e.a \in DOMAIN ctx THEN ctx[e.a].okEtags ELSE {},
                 !.prevQuiet = IF e.a \in DOMAIN ctx THEN (ctx[e.a].result = "ok" /\ ~ctx[e.a].wrote /\ ctx[e.a].childReqs = 0) ELSE FALSE]
 
 Init == l = 1 /\ store = <<>> /\ cfg = [children |-> <<>>] /\ expect = <<>> /\ ctx = <<>> /\ VacInit
